@@ -811,6 +811,29 @@ fn assumptions(prop: &str) -> Vec<&'static str> {
     v
 }
 
+/// `triage`: run the batch and dump every violation key with an example, for a human to
+/// decide between repair and known finding.  Never used by a registered check.
+pub fn triage_main(prop: &str, tier: Tier, seed: u64, out_path: &str) -> i32 {
+    let workers = std::thread::available_parallelism().map(|n| n.get()).unwrap_or(4).min(16);
+    let limit = std::env::var("VERIF_LIMIT").ok().and_then(|w| w.parse().ok());
+    let (out, wall) = match run_batch(prop, tier, seed, workers, limit, false) {
+        Ok(x) => x,
+        Err(e) => {
+            eprintln!("harness error: {}", e);
+            return 2;
+        }
+    };
+    let mut lines = Vec::new();
+    for ((class, origin), (idx, v, spec, count)) in out.a.viols.iter() {
+        let why: Vec<String> = spec.as_ref().map(|s| s.stored_faults.iter().map(|f| f.why.clone()).collect()).unwrap_or_default();
+        lines.push(json!({"property": prop, "class": class, "origin": origin, "client": v.client, "msg": v.msg, "runs": count, "first_run": idx,
+            "file": spec.as_ref().map(|s| s.file.clone()), "entry": spec.as_ref().map(|s| s.entry.name()), "why": why, "detail": crate::wb::clip(&v.detail, 200)}).to_string());
+    }
+    let _ = std::fs::write(out_path, lines.join("\n") + "\n");
+    println!("triage {} {} seed {}: {} runs in {:.1}s, {} keys -> {}", prop, tier.name(), seed, out.a.evaluations, wall, lines.len(), out_path);
+    0
+}
+
 // ------------------------------------------------------------------------------------------
 // self tests
 // ------------------------------------------------------------------------------------------
@@ -864,3 +887,78 @@ pub fn selftest_determinism(props: &[&str], n: u64) -> i32 {
 
 #[allow(dead_code)]
 fn unused(_: HashMap<u8, u8>) {}
+
+/// Sanity of the layer-1 machinery: rewriting a container *without* damage must give a file
+/// that calamine reads exactly like the original (otherwise layer-1 faults would test the
+/// writer, not the fault).
+pub fn selftest_rewrite() -> i32 {
+    use crate::corpus::Format;
+    use crate::runner::{execute, ExecOpts, Limits};
+    use crate::simdisk::Delivery;
+    use crate::spec::{Edit, Layer, Pack, StoredFault};
+    use crate::wb::{Entry, Op};
+    crate::guard::install_panic_hook();
+    let corpus = match crate::corpus::load() {
+        Ok(c) => c,
+        Err(e) => {
+            eprintln!("harness error: {}", e);
+            return 2;
+        }
+    };
+    let mut bad = 0;
+    let mut n = 0;
+    for fx in &corpus {
+        let mut parts = crate::image::Parts::new(&fx.bytes);
+        let noop = |layer: Layer| StoredFault { layer, edit: Some(Edit::Insert { off: 0, bytes: vec![] }), why: "noop".into() };
+        let mut variants: Vec<(String, Vec<StoredFault>)> = Vec::new();
+        if let Some(z) = parts.zip.clone() {
+            for pack in [Pack::Stored, Pack::Deflated] {
+                let fs: Vec<StoredFault> = z.iter().map(|e| noop(Layer::ZipPart { part: e.name.clone(), pack })).collect();
+                variants.push((format!("zip repack {:?}", pack), fs));
+            }
+            if z.iter().any(|e| e.name == "xl/vbaProject.bin") {
+                variants.push(("zip+inner cfb rewrite".into(), vec![noop(Layer::ZipCfbStream { part: "xl/vbaProject.bin".into(), stream: "dir".into() })]));
+            }
+        } else if fx.format == Format::Xls {
+            if let Some(l) = parts.cfb.clone() {
+                if let Some(e) = l.dir.iter().find(|e| e.typ == 2) {
+                    variants.push(("cfb rewrite".into(), vec![noop(Layer::CfbStream { stream: e.name.clone() })]));
+                }
+            }
+        }
+        let ops = vec![Op::Sweep];
+        let run = |img: Vec<u8>| {
+            let img = std::sync::Arc::new(img);
+            let ex = execute(img.clone(), Entry::own(fx.format), Delivery::perfect(), &ops, Limits::for_input(img.len(), 60_000_000_000), &ExecOpts { capture: false, stop_on_panic: true, probes: &[] });
+            let mut s = crate::prng::Sig::new();
+            ex.open.sig(&mut s);
+            for r in &ex.ops {
+                r.outcome.sig(&mut s);
+            }
+            (s.0, ex.open.brief(), ex.ops.len())
+        };
+        let base = run(fx.bytes.to_vec());
+        for (what, fs) in variants {
+            n += 1;
+            match crate::image::build(&fx.bytes, &mut parts, None, &fs) {
+                Ok(b) => {
+                    let got = run(b.image);
+                    if got.0 != base.0 {
+                        println!("REWRITE-DIFF {} [{}]: original {:?} rewritten {:?}", fx.name, what, base, got);
+                        bad += 1;
+                    }
+                }
+                Err(e) => {
+                    println!("REWRITE-FAILED {} [{}]: {}", fx.name, what, e);
+                    bad += 1;
+                }
+            }
+        }
+    }
+    println!("rewrite selftest: {} variants, {} differ", n, bad);
+    if bad == 0 {
+        0
+    } else {
+        1
+    }
+}
